@@ -28,13 +28,21 @@ impl Compiler {
             r is Ok ==> ({
                 let n = arguments@.len() as int;
                 let code = final(self).instructions@;
-                let is_builtin = **left is Identifier && builtin_of_name((**left)->Identifier_0@) is Some;
+                // which of the two call instructions was emitted is remembered in last_instruction
+                let used_builtin = final(self).last_instruction == Some(OpCode::CallBuiltin);
                 &&& n <= 255
-                &&& logged_in_order(*old(self), *final(self), arguments@, if is_builtin { 0int } else { 1int })
-                &&& (is_builtin ==> code.len() >= 3 && code[code.len() - 3] == opcode_byte(OpCode::CallBuiltin)
+                &&& (final(self).last_instruction == Some(OpCode::CallBuiltin) || final(self).last_instruction == Some(OpCode::Call))
+                &&& logged_in_order(*old(self), *final(self), arguments@, if used_builtin { 0int } else { 1int })
+                // O09.b (fix ec50a4f): a builtin is called only by its own name AND only when the program has not declared
+                // that name itself (at the callee's position the table is the final one: emitting touches no names)
+                &&& (used_builtin ==> **left is Identifier && builtin_of_name((**left)->Identifier_0@) is Some
+                        && sym_resolve(final(self).symbols, (**left)->Identifier_0@) is None
+                        && code.len() >= 3 && code[code.len() - 3] == opcode_byte(OpCode::CallBuiltin)
                         && code[code.len() - 2] == builtin_of_name((**left)->Identifier_0@)->Some_0 && code[code.len() - 1] == n)
-                &&& (!is_builtin ==> final(self).log@[old(self).log@.len() + n].what == LogWhat::E(**left)
+                &&& (!used_builtin ==> final(self).log@[old(self).log@.len() + n].what == LogWhat::E(**left)
                         && code.len() >= 2 && code[code.len() - 2] == opcode_byte(OpCode::Call) && code[code.len() - 1] == n)
+                // a callee that is not a builtin's name is always called through its value
+                &&& (!(**left is Identifier && builtin_of_name((**left)->Identifier_0@) is Some) ==> !used_builtin)
             }),
             r is Ok ==> is_prefix(old(self).instructions@, final(self).instructions@),
             r is Ok ==> gen_post(*old(self), *final(self), true),
